@@ -11,7 +11,30 @@ mod ser;
 
 use std::env;
 
+/// A logger that accepts everything and writes nothing: the arguments of the library's debug!/info!/error! calls are
+/// evaluated (as they are in a default build, where these macros are println!) without producing output.
+struct NullLog;
+impl log::Log for NullLog {
+    fn enabled(&self, _m: &log::Metadata) -> bool {
+        true
+    }
+    fn log(&self, r: &log::Record) {
+        // format the message so that Display implementations of the arguments run as they would when printed
+        let _ = std::fmt::Write::write_fmt(&mut NullSink, *r.args());
+    }
+    fn flush(&self) {}
+}
+struct NullSink;
+impl std::fmt::Write for NullSink {
+    fn write_str(&mut self, _s: &str) -> std::fmt::Result {
+        Ok(())
+    }
+}
+static NULL_LOG: NullLog = NullLog;
+
 fn main() {
+    let _ = log::set_logger(&NULL_LOG);
+    log::set_max_level(log::LevelFilter::Trace);
     run::install_panic_hook();
     rec::install_hook();
     locks::install();
